@@ -20,7 +20,14 @@ EXPLANATION = (
     "the inputs in order and, for real inputs only, forms slice(start, start + num_elements), files it under lhs or rhs by membership "
     "of the input's name in lhs_keys, and advances start to the slice's stop. R12.3: Gaussian + Gaussian aligns BOTH operands to the "
     "same merged inputs (lhs.inputs then rhs.inputs) with expand=True and concatenates white_vec and prec_sqrt along the last (rank) "
-    "axis with the operands in the same order. R12.4 (shared with C19 R19.2): Gaussian.align builds the requested inputs first."
+    "axis with the operands in the same order; an alignment may be skipped only under an order-sensitive comparison of the inputs. R12.4 "
+    "(shared with C19 R19.2): Gaussian.align builds the requested inputs first. R12.5 (shared with C04 R04.6): staging of "
+    "Gaussian.eager_subs. R12.6: concatenation adds the discrete parts whenever any part has one. R12.7: the inputs mapping of a "
+    "concatenation is not edited by delete-and-reinsert. R12.8: a worker of Gaussian.eager_subs that reshapes aligned values receives "
+    "Tensors only or converts Numbers first (align_tensors returns a Number's bare scalar). R12.9: in _eager_subs_affine the store of a "
+    "coefficient block into the BlockMatrix depends on the presence of the block's key in the coefficient mapping and on no other "
+    "condition on that key. R12.10: _compress_rank's Cholesky route (assume_full_rank=True) is taken only at the sites of a frozen "
+    "who-may-call table (sampling), never by value-preserving compression."
 )
 ASSUMPTIONS = ["constructor conversions, substitution, rank compression and every numerical value are not decided"]
 RULE_TEXT = "one obligation per bookkeeping loop / fusion step"
@@ -41,6 +48,135 @@ def _real_guard(lp: ast.For):
                 and norm(st.test.left) == f"{dom}.dtype" and isinstance(st.test.comparators[0], ast.Constant) and st.test.comparators[0].value == "real":
             return st
     return None
+
+
+def _numbers_into_array_workers(prog: Program, col: Collector, refs: Refs):
+    """align_tensors hands a Number back as a Python scalar.  A method of Gaussian that reads array attributes (.shape / .reshape) of
+    aligned values must therefore not receive Numbers: either the classification that feeds it admits Tensors only, or the worker
+    converts Numbers to Tensors first."""
+    col.rule("R12.8", "a worker of Gaussian.eager_subs that treats aligned values as arrays receives Tensors only, or converts Numbers first", floor=1)
+    disp = require_func(prog, "funsor.gaussian::Gaussian.eager_subs")
+    # classifications: NAME = tuple((k, v) for k, v in subs if isinstance(v, (A, B)) ...)
+    admitted = {}
+    for st in walk_no_nested(disp.node):
+        if isinstance(st, ast.Assign) and isinstance(st.targets[0], ast.Name) and isinstance(st.value, ast.Call) and st.value.args and isinstance(st.value.args[0], (ast.GeneratorExp, ast.ListComp)):
+            classes = set()
+            for cond in st.value.args[0].generators[0].ifs:
+                t = cond
+                if isinstance(t, ast.Call) and norm(t.func) == "isinstance" and len(t.args) == 2:
+                    cl = t.args[1].elts if isinstance(t.args[1], ast.Tuple) else [t.args[1]]
+                    classes |= {norm(x) for x in cl}
+            if classes:
+                admitted[st.targets[0].id] = classes
+    n = 0
+    for c_ in walk_no_nested(disp.node):
+        if not (isinstance(c_, ast.Call) and isinstance(c_.func, ast.Attribute) and isinstance(c_.func.value, ast.Name) and c_.func.value.id == disp.positional[0] and c_.args
+                and isinstance(c_.args[0], ast.Name) and c_.args[0].id in admitted):
+            continue
+        w = prog.funcs.get(f"funsor.gaussian::Gaussian.{c_.func.attr}")
+        if w is None:
+            continue
+        p = w.positional[1]
+        # does the worker read array attributes of values that went through align_tensors together with the parameter's values?
+        aligned = [st for st in ast.walk(w.node) if isinstance(st, ast.Assign) and isinstance(st.value, ast.Call) and norm(st.value.func).endswith("align_tensors")]
+        if not aligned:
+            continue
+        arrayish = any(isinstance(y, ast.Attribute) and y.attr in ("shape", "reshape") for y in ast.walk(w.node))
+        # values of the parameter reach the aligned list without an intervening isinstance test in the worker?  (the affine worker re-extracts and tests)
+        reaches = any(isinstance(y, ast.Call) and isinstance(y.func, ast.Attribute) and y.func.attr in ("extend", "append") and any(isinstance(z, ast.Name) and z.id == p for z in ast.walk(y))
+                      for y in ast.walk(w.node))
+        if not (arrayish and reaches):
+            continue
+        n += 1
+        construct = f"{w.fq}::values of `{c_.args[0].id}`"
+        classes = admitted[c_.args[0].id]
+        converts = any(isinstance(y, ast.Call) and norm(y.func) == "isinstance" and len(y.args) == 2 and "Number" in norm(y.args[1]) for y in ast.walk(w.node)) \
+            and any(isinstance(y, ast.Call) and (refs.resolve(y.func) or "").endswith("Tensor") for y in ast.walk(w.node))
+        if "Number" not in classes:
+            col.ok(construct, f"`{c_.args[0].id}` admits {sorted(classes)} only", disp.loc(c_))
+        elif converts:
+            col.ok(construct, "Numbers are converted to Tensors before the alignment", w.loc())
+        else:
+            col.violation(construct, f"`{c_.args[0].id}` admits {sorted(classes)}, and `{w.name}` reshapes the aligned values as arrays; align_tensors returns the bare Python scalar "
+                          "of a Number, so substituting a Python number for a real input (g(x=0.5)) raises AttributeError instead of evaluating the quadratic form", disp.loc(c_))
+    if n == 0:
+        col.unresolved(f"{disp.fq}::workers", "no worker that aligns the substituted values as arrays was found", disp.loc())
+
+
+def _affine_blocks_written(prog: Program, col: Collector, refs: Refs):
+    """In the blockwise representation x = A y + b of an affine substitution every coefficient of every substituted input is written into
+    the block matrix.  The store of a coefficient block may depend on the membership of the block's key in the coefficient mapping it is
+    read from, and on nothing else that mentions that key."""
+    col.rule("R12.9", "every coefficient block of an affine substitution is written into the block matrix", floor=1)
+    f = require_func(prog, "funsor.gaussian::Gaussian._eager_subs_affine")
+    mats = {norm(st.targets[0]) for st in walk_no_nested(f.node) if isinstance(st, ast.Assign) and isinstance(st.value, ast.Call) and norm(st.value.func).endswith("BlockMatrix")}
+    n = 0
+    for st in ast.walk(f.node):
+        if not (isinstance(st, ast.Assign) and isinstance(st.targets[0], ast.Subscript) and norm(st.targets[0].value) in mats):
+            continue
+        loops = [a for a in f.module.ancestors(st) if isinstance(a, ast.For)]
+        if not loops:
+            continue
+        L = loops[0]  # innermost
+        keyn = norm(L.target.elts[0]) if isinstance(L.target, ast.Tuple) else norm(L.target)
+        # is the stored value read from a mapping indexed by the loop key?  (otherwise: the identity block of a kept input)
+        src = None
+        names_in_value = {y.id for y in ast.walk(st.value) if isinstance(y, ast.Name)}
+        for a in ast.walk(L):
+            if isinstance(a, ast.Assign) and isinstance(a.value, ast.Subscript) and norm(a.value.slice) == keyn and isinstance(a.value.value, ast.Name):
+                tg = {y.id for y in ast.walk(a.targets[0]) if isinstance(y, ast.Name)}
+                if tg & names_in_value:
+                    src = a.value.value.id
+        iter_items_of = norm(L.iter.func.value) if isinstance(L.iter, ast.Call) and isinstance(L.iter.func, ast.Attribute) and L.iter.func.attr in ("items", "keys") else None
+        if src is None and not (isinstance(L.target, ast.Tuple) and any(isinstance(y, ast.Name) and y.id in names_in_value for e in L.target.elts[1:] for y in ast.walk(e))):
+            continue
+        n += 1
+        construct = f"{f.fq}::{norm(st.targets[0])[:50]}"
+        # conditions the store depends on inside L: enclosing ifs, and earlier `if ...: continue` in the enclosing blocks
+        conds = []
+        node = st
+        for a in f.module.ancestors(st):
+            if a is L:
+                blk = L.body
+            elif isinstance(a, ast.If):
+                conds.append(a.test)
+                blk = a.body if any(node is z for s_ in a.body for z in ast.walk(s_)) else a.orelse
+            else:
+                node = a
+                continue
+            for s_ in blk:
+                if any(node is z for z in ast.walk(s_)):
+                    break
+                if isinstance(s_, ast.If) and any(isinstance(z, (ast.Continue, ast.Break)) for z in ast.walk(s_)):
+                    conds.append(s_.test)
+            node = a
+            if a is L:
+                break
+        verdicts = []
+        for t in conds:
+            atoms = t.values if isinstance(t, ast.BoolOp) else [t]
+            for at in atoms:
+                while isinstance(at, ast.UnaryOp) and isinstance(at.op, ast.Not):
+                    at = at.operand
+                mentions_key = any(isinstance(y, ast.Name) and y.id == keyn for y in ast.walk(at))
+                if isinstance(at, ast.Compare) and len(at.ops) == 1 and isinstance(at.ops[0], (ast.In, ast.NotIn)) and norm(at.left) == keyn and norm(at.comparators[0]) in (src, iter_items_of):
+                    verdicts.append((True, at))
+                elif mentions_key:
+                    verdicts.append((False, at))
+                else:
+                    verdicts.append((None, at))
+        badc = [at for v, at in verdicts if v is False]
+        unk = [at for v, at in verdicts if v is None]
+        if badc:
+            col.violation(construct, f"the coefficient block is written only under `{norm(badc[0])}`, a condition on the block's key other than its presence in `{src or iter_items_of}`: "
+                          "a coefficient that the affine representation contains is silently dropped, so g(x = 2*z + 1) with z already an input of g (or g(x = 3*x - 2)) evaluates a "
+                          "different quadratic form", f.loc(st))
+        elif unk:
+            col.unresolved(construct, f"the coefficient block is written under `{norm(unk[0])[:50]}`", f.loc(st))
+        else:
+            col.ok(construct, f"written for every key present in `{src or iter_items_of}`", f.loc(st))
+    if n == 0:
+        col.unresolved(f"{f.fq}::coefficient blocks", "no store of a coefficient block into a BlockMatrix was found", f.loc())
 
 
 def run(prog: Program, col: Collector, tier: str, refs: Optional[Refs] = None, cat: Optional[Catalogue] = None):
@@ -174,6 +310,30 @@ def run(prog: Program, col: Collector, tier: str, refs: Optional[Refs] = None, c
               f"`{norm(dels[0]) if dels else ''}` removes an entry from a mapping that becomes the inputs of the result, and the new name is inserted afterwards - at the END of the ordered "
               "mapping - while the arrays were concatenated along the axis the removed name had (axis 0): with any other batch input the declared inputs and the layout of the data disagree",
               fc.loc(dels[0]) if dels else fc.loc())
+    # ---------------------------------------------------------------- R12.8 values that may be Numbers are not handled as arrays
+    _numbers_into_array_workers(prog, col, refs)
+    # ---------------------------------------------------------------- R12.9 every coefficient block of an affine substitution is written
+    _affine_blocks_written(prog, col, refs)
+    # ---------------------------------------------------------------- R12.10 who may take the Cholesky route of _compress_rank
+    col.rule("R12.10", "value-preserving rank compression uses the QR route: assume_full_rank=True only where a failure is the specified outcome (sampling)", floor=2)
+    ALLOWED_CHOLESKY = {"funsor.gaussian::Gaussian._sample": "sampling needs rank >= dim and raises otherwise; a singular precision has no sample to draw"}
+    for g_ in prog.funcs.values():
+        if isinstance(g_.node, ast.Lambda):
+            continue
+        for c_ in walk_no_nested(g_.node):
+            if isinstance(c_, ast.Call) and norm(c_.func).endswith("_compress_rank"):
+                kw = next((k.value for k in c_.keywords if k.arg == "assume_full_rank"), c_.args[2] if len(c_.args) >= 3 else None)
+                construct = f"{g_.fq}::_compress_rank"
+                if kw is None or (isinstance(kw, ast.Constant) and kw.value is False):
+                    col.ok(construct, "QR route (valid for every over-complete factor)", g_.loc(c_))
+                elif g_.fq in ALLOWED_CHOLESKY:
+                    col.ok(construct, "Cholesky route in " + g_.fq + ": " + ALLOWED_CHOLESKY[g_.fq], g_.loc(c_))
+                elif isinstance(kw, ast.Constant) and kw.value is True:
+                    col.violation(construct, "rank compression here must preserve the quadratic form of ANY over-complete factor, but assume_full_rank=True takes the Cholesky route, "
+                                  "which needs prec_sqrt prec_sqrt' to be positive definite: a wide factor with singular precision (several observations of one coordinate) fails or "
+                                  "changes value; `rank > dim` by shape does not establish it", g_.loc(c_))
+                else:
+                    col.unresolved(construct, f"assume_full_rank={norm(kw)} is not a constant", g_.loc(c_))
     # ---------------------------------------------------------------- R12.4
     from . import c19
     col.rule("R12.4", "the inputs of an aligned result are the requested names, then the remaining inputs (shared with C19 R19.2)", floor=3)
